@@ -65,6 +65,7 @@ class Ctx:
         self.inconclusive = []
         self.cover = {}
         self.replaying = False
+        self._later = []
 
     # ---- bookkeeping used by monitors -------------------------------------------------
     def evaluated(self, n=1):
@@ -112,6 +113,19 @@ class Ctx:
         finally:
             signal.setitimer(signal.ITIMER_REAL, 0)
             signal.signal(signal.SIGALRM, old)
+
+    def later(self, fn, *args, cap=400):
+        """Registers a case (immutable description + judging function) to be judged AGAIN at the end of the shard, after
+        everything else went through the library: a verdict that was right on a fresh process and is wrong after thousands of
+        other inputs (memoisation, module-level caches, shared rule objects) shows up there."""
+        if len(self._later) < cap:
+            self._later.append((fn, args))
+
+    def run_later(self):
+        todo, self._later = self._later, []
+        for fn, args in todo:
+            self.counters["rejudged_at_end_of_shard"] += 1
+            self.case(fn, self, *args)
 
     def case(self, fn, *args, seconds=30.0, **kw):
         """Runs one workload case under the watchdog; a firing makes the run inconclusive and the workload goes on."""
@@ -218,6 +232,7 @@ def run_shard(mod, prop, tier, seed, index, params):
     ctx = Ctx(prop, tier, seed, f"{tier}-{index}")
     try:
         mod.run(ctx, params)
+        ctx.run_later()
     except AbortShard as e:
         ctx.inconclusive_because(f"shard {index}: {e}")
     except CaseTimeout:
